@@ -205,6 +205,26 @@ func c06Record(c *Ctx, idx int, build func() *dst.File, filled bool) []obj {
 			c.Note(fmt.Sprintf("fragment %d: a clone printed by a restorer whose file set holds a file: %s %v", idx, m3, e3))
 		}
 	}
+	if printedSame && m1 == "" && !filled {
+		// every declaration replaced by its clone (names elsewhere still point at the originals through their
+		// objects), printed by a Restorer that restores the object graph too: the clones stand for their
+		// originals, nothing of the originals comes back
+		f3 := build()
+		for i, d := range f3.Decls {
+			f3.Decls[i] = dst.Clone(d).(dst.Decl)
+		}
+		var b4 bytes.Buffer
+		var e4 error
+		m4 := guard(func() {
+			r := decorator.NewRestorer()
+			r.Extras = true
+			e4 = r.Fprint(&b4, f3)
+		})
+		if m4 != "" || e4 != nil || b4.String() != p1 {
+			printedSame = false
+			c.Note(fmt.Sprintf("fragment %d: declarations replaced by their clones, printed with Extras: %s %v", idx, m4, e4))
+		}
+	}
 	// mutate the clone, look at the original
 	mutateAll(cl)
 	origAfter, _ := ExportDst(f)
